@@ -137,6 +137,15 @@ impl Sut for LI {
         // "hot" index so that replicas collide, otherwise raw index modulo the live length
         Cmd::new(k, vec![rng.below(6) as u64, rng.below(250) as u64])
     }
+    fn template_cmd(role: u8, rng: &mut Rng) -> Option<Cmd> {
+        // everybody edits around the same two positions: concurrent inserts at one index give sibling identifiers
+        // with equal rationals, inserting between those gives nested paths, deletes hit what others insert next to
+        let ix = [1u64, 1, 1, 1, 0, 2, 2, 3][rng.below(8)];
+        Some(match role {
+            1 => Cmd::new("delete", vec![4, ix]),
+            _ => Cmd::new("insert", vec![4, ix]),
+        })
+    }
     fn gen(&self, actor: A, cmd: &Cmd, sh: &mut Shadow, _old: &Self) -> Option<Gen<Self::Op>> {
         let before: Vec<u32> = self.read::<Vec<&u32>>().into_iter().cloned().collect();
         let len = before.len();
